@@ -4,7 +4,7 @@ from __future__ import annotations
 import os
 import tempfile
 
-from symx.core import Violation, HarnessError
+from symx.core import Violation, HarnessError, ShimInt
 from symx.patch import patched
 from symx.run import Obligation
 from symx import ch
@@ -30,7 +30,7 @@ ASSUMPTIONS = [
     "fsspec's read_block delimiter seek is third-party code: exercised only by the e2e witnesses",
     "get_fs_token_paths and delayed() are stubbed in the symx run of read_bytes so that only dask's own offset arithmetic executes",
 ]
-STUBS = ["dask.bytes.core.get_fs_token_paths -> fake fs with symbolic size", "dask.bytes.core.delayed -> recorder"]
+STUBS = ["dask.bytes.core.int -> ShimInt (keeps the symbolic blocksize symbolic through int())", "dask.bytes.core.get_fs_token_paths -> fake fs with symbolic size", "dask.bytes.core.delayed -> recorder"]
 ENUM = ["size and blocksize in read_bytes (float arithmetic concretises both)"]
 OUTSIDE = ["encodings other than utf-8, compression", "newline-family delimiters handled by io.StringIO (C code): only e2e witnesses",
            "texts longer than the CrossHair bounds"]
@@ -106,8 +106,9 @@ def mk_offsets(hi, not_zero):
             got = dask.compute(*blocks[0], scheduler="sync")
             if b"".join(got) != content:
                 raise Violation(f"read_bytes blocks do not concatenate to the file: size={size} blocksize={bs}")
-            for b in got[:-1]:
-                if b and not b.endswith(delim):
+            for i, b in enumerate(got[:-1]):
+                # a block may end without a delimiter only when it runs to the end of the file (all later blocks are empty)
+                if b and not b.endswith(delim) and b"".join(got[i + 1:]):
                     raise Violation(f"block boundary not just after a delimiter: size={size} blocksize={bs} block={b!r}")
             text = content.decode()
             ref = []
@@ -125,7 +126,8 @@ def mk_offsets(hi, not_zero):
             if list(a) != ref or list(b2) != ref:
                 raise Violation(f"read_text lines differ: size={size} blocksize={bs}: {list(a)[:6]} / {list(b2)[:6]} / ref {ref[:6]}")
 
-    return Obligation(f"read_bytes_offsets[size<={hi},not_zero={not_zero}]", setup, run, e2e=e2e, e2e_every=6)
+    return Obligation(f"read_bytes_offsets[size<={hi},not_zero={not_zero}]", setup, run, e2e=e2e, e2e_every=6,
+                      patches=lambda: patched((BC, "int", ShimInt)))
 
 
 def obligations(tier):
